@@ -31,6 +31,8 @@ def deps_of(v):
 
 
 def discard_of(v):
+    if v.get("discard_empty"):
+        return set()  # field= with an explicit empty discard: the error goes under the field, nothing is discarded
     if v.get("discard"):
         return set(v["discard"])
     if v.get("field"):
